@@ -14,12 +14,12 @@ def estimators_native(vc):
     seed = vc.int("seed", lo=0, hi=10 ** 6)
     rng = np.random.default_rng(seed)
     est = vc.choice("estimator", ["kde", "unimodal"])
-    fam = vc.choice("family", ["normal", "skew", "logistic"])
+    fam = vc.choice("family", ["normal", "skew", "logistic", "left_skew"])
     n = vc.choice("n", [300, 3000])
     scale = 10 ** vc.choice("log10_scale", [-6, 0, 3, 6])
     loc = vc.choice("location_in_sigmas", [0.0, 30.0, 1e4, 1e6]) * scale
     base = {"normal": lambda: rng.normal(size=n), "skew": lambda: rng.gamma(4.0, size=n) / 2.0,
-            "logistic": lambda: rng.logistic(size=n) * 0.55}[fam]()
+            "logistic": lambda: rng.logistic(size=n) * 0.55, "left_skew": lambda: 6.0 - rng.gamma(3.0, size=n) / 1.7}[fam]()
     s = base * scale + loc
     with np.errstate(all="ignore"):
         E = GaussianKDE(s) if est == "kde" else UnimodalPdf(s)
@@ -38,7 +38,20 @@ def estimators_native(vc):
     c = np.asarray(E.cdf(xs))
     ci = np.array([np.trapezoid(pg[grid <= v], grid[grid <= v]) for v in xs])
     vc.ensures("cdf_is_integral_of_density", bool(np.all(np.abs(c - ci) < 5e-3)))
-    vc.ensures("mode_is_near_the_top_of_the_density", float(E(E.mode)) >= pg.max() * 0.97)
+    # (the KDE's bounded search may stop on a secondary bump of a wiggly estimate -- recorded finding -- but what it
+    # returns must at least be a maximum of the density in its own neighbourhood)
+    wloc = 0.25 * E.h if est == "kde" else 0.05 * E.MAP[1]
+    near = np.linspace(E.mode - wloc, E.mode + wloc, 41)
+    if est == "kde":                 # the KDE searches the 20% highest-density interval of the sample only
+        from inference.pdf.hdi import sample_hdi
+        b_lo, b_hi = sample_hdi(np.sort(s), 0.2)
+        near = np.clip(near, b_lo, b_hi)
+    slack = 0.0
+    if est == "kde":                 # kernels 3.5-4.5 bandwidths away are switched on/off at region edges (C12's truncation)
+        dist = np.abs(s - E.mode) / E.h
+        slack = np.sum((dist > 3.4) & (dist < 4.6)) / s.size * np.exp(-0.5 * 3.4 ** 2) / (np.sqrt(2 * np.pi) * E.h)
+    vc.ensures("mode_is_a_local_maximum_of_the_density", float(E(E.mode)) >= float(np.max(E(near))) * (1 - 1e-6) - slack
+               and float(E(E.mode)) >= pg.max() * 0.8)
     vc.ensures(f"{est}.mode_is_the_global_maximum", float(E(E.mode)) >= pg.max() * (1 - 2e-3))
     for f in (0.3, 0.68, 0.95):
         a, b = E.interval(f)
